@@ -17,7 +17,7 @@ let emitted = ref 0
 let both_l (emit : Streams.emit) (case : unit -> string) (f : bool -> string) =
   let i = !emitted in
   incr emitted;
-  if i mod nshards = shard then emit (case ()) (f true) (f false) else emit "" "" ""
+  ignore i; if Streams.mine () then emit (case ()) (f true) (f false) else emit "" "" ""
 let both emit case f = both_l emit (fun () -> case) f
 
 let p2 k = Z.shift_left Z.one k
